@@ -4,6 +4,7 @@ mod agg_engine;
 mod auth_engine;
 mod codec_engine;
 mod core_engine;
+mod election_engine;
 mod persist_engine;
 mod session_engine;
 mod util;
@@ -22,6 +23,7 @@ fn main() {
         "persist" => persist_engine::main(&args[2], &args[3]),
         "agg" => agg_engine::main(&args[2], &args[3]),
         "session" => session_engine::main(&args[2], &args[3]),
+        "election" => election_engine::main(&args[2], &args[3]),
         other => {
             eprintln!("unknown engine {other}");
             std::process::exit(2);
